@@ -39,3 +39,9 @@ func VerifChargedBlocked(p *Pipeline) (charged, blocked int) {
 	p.streamer.blockedMu.Unlock()
 	return
 }
+
+// VerifNewEvent builds a regular event as the pipeline would hand it to
+// InputPlugin.Commit (harness for the offsets protocol).
+func VerifNewEvent(sourceID SourceID, stream StreamName, offset int64, seq uint64) *Event {
+	return &Event{SourceID: sourceID, streamName: stream, Offset: offset, SeqID: seq, SourceName: "verif"}
+}
